@@ -38,6 +38,7 @@ void h_c10_emit_copy(void) {
   __CPROVER_assume(cap <= CQV_MAXBUF && off <= cap);
   uint8_t *dst = malloc(cap);
   __CPROVER_assume(dst != NULL);
-  uint8_t *r = snappy_emit_copy(dst + off, offset, len);
+  uint8_t *op0 = dst + off;
+  uint8_t *r = snappy_emit_copy(op0, offset, len);
   CQV_CANARY("emit_copy (format) returns");
 }
